@@ -67,7 +67,7 @@ SCHED_ASSUME = [
     "quiescence (testing/synctest.Wait) in virtual time is the progress oracle; no wall-clock deadline decides a verdict",
 ]
 SPECS["C10"] = dict(level="exploration", assumptions=SCHED_ASSUME, min_relevant={"quick": 200, "thorough": 2000},
-    rule="schedule grid: 8 writer scenarios (publish to 1/3 subscriptions, zero-deadline ModifyAckDeadline with ids spanning 2-3 subscriptions in both id orders, ack of an ordered predecessor, dead-lettering of an ordered predecessor by nack, dead-letter forward into the waiter's topic by pull/sweep/nack, seek to time/snapshot that revives, seek to snapshot/time that only acknowledges the leased predecessor of a blocked same-key message) x variants (which subscription(s) wait, fresh vs warm notifier state) x writer start offset (k+1/2)*D for k=-1..6 against a waiter delayed D at each of its own transaction boundaries x commit->notify delay {0,D} x waiter kind {Pull, StreamingPull}. Oracle: after the writer returned, at quiescence and after at most the scheduled delays, the waiter has returned a message. Non-trivial = the waiter was blocked when the writer started; distinct = distinct (scenario, boundary-event order, waiter kind).",
+    rule="schedule grid: 9 writer scenarios (publish to 1/3 subscriptions, zero-deadline ModifyAckDeadline with ids spanning 2-3 subscriptions in both id orders, ack of an ordered predecessor, dead-lettering of an ordered predecessor by nack, dead-letter forward into the waiter's topic by pull/sweep/nack, seek to time/snapshot that revives, seek to snapshot/time that only acknowledges the leased predecessor of a blocked same-key message, two unary pullers sharing one subscription with a late-started second puller and three publishes) x variants (which subscription(s) wait, fresh vs warm notifier state) x writer start offset (k+1/2)*D for k=-1..6 against a waiter delayed D at each of its own transaction boundaries x commit->notify delay {0,D} x waiter kind {Pull, StreamingPull}. Oracle: after the writer returned, at quiescence and after at most the scheduled delays, the waiter has returned a message. Non-trivial = the waiter was blocked when the writer started; distinct = distinct (scenario, boundary-event order, waiter kind).",
     parts=[dict(name="grid", binary="rigv", pkg="rigv", test="TestC10", race=True, shards={"quick": 16, "thorough": 16})])
 
 SPECS["C11"] = dict(level="exploration", assumptions=SCHED_ASSUME + ["the client-side ledger counts a message as settled when the client sent its ack/nack on the stream, or when an external Acknowledge returned; a lapsed lease counts as settled for the bound and as still occupying its slot for the no-stall check (the sound side in both cases)"],
